@@ -58,8 +58,10 @@ func (rc *VSpecRD) normalize() {
 	}
 }
 
+// Probability cells hold the value XOR sKProbInit, so that a zeroed table
+// is an initialised table (tables of up to 0x300<<12 cells need no fill loop).
 func (rc *VSpecRD) bit(prob *uint16) uint32 {
-	v := uint32(*prob)
+	v := uint32(*prob) ^ sKProbInit
 	bound := (rc.rng >> 11) * v
 	var sym uint32
 	if rc.code < bound {
@@ -71,7 +73,7 @@ func (rc *VSpecRD) bit(prob *uint16) uint32 {
 		rc.rng -= bound
 		sym = 1
 	}
-	*prob = uint16(v)
+	*prob = uint16(v) ^ sKProbInit
 	rc.normalize()
 	return sym
 }
@@ -121,12 +123,12 @@ type sLenModel struct {
 
 func sInitProbs(p []uint16) {
 	for i := range p {
-		p[i] = sKProbInit
+		p[i] = 0 // = sKProbInit under the XOR representation
 	}
 }
 
 func (l *sLenModel) init() {
-	l.choice, l.choice2 = sKProbInit, sKProbInit
+	l.choice, l.choice2 = 0, 0
 	for i := range l.low {
 		sInitProbs(l.low[i][:])
 		sInitProbs(l.mid[i][:])
@@ -164,8 +166,7 @@ type VSpecModel struct {
 
 func (m *VSpecModel) reset(lc, lp, pb uint) {
 	m.lc, m.lp, m.pb = lc, lp, pb
-	m.lit = make([]uint16, 0x300<<(lc+lp))
-	sInitProbs(m.lit)
+	m.lit = make([]uint16, 0x300<<(lc+lp)) // zeroed = initialised
 	for i := range m.posSlot {
 		sInitProbs(m.posSlot[i][:])
 	}
@@ -552,7 +553,7 @@ func (e *VSpecRE) shiftLow() {
 }
 
 func (e *VSpecRE) bit(prob *uint16, b uint32) {
-	v := uint32(*prob)
+	v := uint32(*prob) ^ sKProbInit
 	bound := (e.rng >> 11) * v
 	if b == 0 {
 		e.rng = bound
@@ -562,7 +563,7 @@ func (e *VSpecRE) bit(prob *uint16, b uint32) {
 		e.rng -= bound
 		v -= v >> sKMoveBits
 	}
-	*prob = uint16(v)
+	*prob = uint16(v) ^ sKProbInit
 	for e.rng < sKTop {
 		e.rng <<= 8
 		e.shiftLow()
